@@ -29,7 +29,7 @@ ALL_CB = ["on_open", "on_message", "on_error", "on_close", "on_ping", "on_pong",
 
 
 def bounds(tier):
-    return ("sequences of <= %d abnormal outcomes + 1 terminal; intervals {1,5}; built-in and external dispatcher; ping thread on/off; preemption bound %d; "
+    return ("sequences of <= %d abnormal outcomes + 1 terminal; intervals {1, 5, 0.5, 1.5}; built-in and external dispatcher; ping thread on/off; preemption bound %d; "
             "closer thread: 1 preemption at every synchronisation point of a 2-loss scenario" % ((2, 1) if tier == "quick" else (3, 2)))
 
 
@@ -46,7 +46,7 @@ def tasks(tier, seed):
             for term in TERMINAL:
                 for disp in ("builtin", "external"):
                     for onrec in (True, False):
-                        for interval in ((1, 5) if k <= 1 else (1,)):
+                        for interval in ((1, 5, 0.5, 1.5) if k <= 1 else (1,)):
                             for ping in ((False, True) if k <= 1 or "silent" in seq else (False,)):
                                 if "silent" in seq and not ping:
                                     continue
@@ -56,7 +56,7 @@ def tasks(tier, seed):
                                                "via_default": True, "bound": 0, "name": "%s|%s/%s/rec=%s/i=%d/setReconnect" % (",".join(seq), term, disp, onrec, interval)})
                                 ts.append({"kind": "seq", "seq": list(seq), "term": term, "disp": disp, "onrec": onrec, "interval": interval, "ping": ping,
                                            "bound": (2 if tier == "quick" else 4) if (ping and disp == "builtin") else 0,
-                                           "name": "%s|%s/%s/rec=%s/i=%d/ping=%s" % (",".join(seq) or "-", term, disp, onrec, interval, ping)})
+                                           "name": "%s|%s/%s/rec=%s/i=%s/ping=%s" % (",".join(seq) or "-", term, disp, onrec, interval, ping)})
                                 if ping and disp == "builtin" and k <= 1 and interval == 1:
                                     # the same with a scheduling point at every executed library line (ping thread against the loop thread)
                                     ts.append({"kind": "seq", "seq": list(seq), "term": term, "disp": disp, "onrec": onrec, "interval": interval, "ping": ping, "line": True,
